@@ -572,6 +572,7 @@ Proof.
   intros Hb. unfold empty_line_remover. rewrite Hb. cbn [negb].
   match goal with |- context [if negb ?c then _ else _] => destruct c end; cbn [negb];
     [|eexists; reflexivity].
+  destruct (residue_is_blank s pos); cbn [negb]; [|eexists; reflexivity].
   destruct (is_none (two_next s pos) && is_none (two_prev s pos)); eexists; reflexivity.
 Qed.
 
@@ -584,6 +585,8 @@ Proof.
   destruct (beq c NL) eqn:E; cbn [negb] in H;
     [|inversion H; subst a b; apply good_empty; assumption].
   apply beq_eq in E. subst c.
+  destruct (residue_is_blank s pos); cbn [negb] in H;
+    [|inversion H; subst a b; apply good_empty; assumption].
   destruct (is_none (two_next s pos) && is_none (two_prev s pos));
     [|inversion H; subst a b; apply good_empty; assumption].
   inversion H; subst a b.
